@@ -69,12 +69,23 @@ def oracle(prog, obs):
     if obs.get("crashed"):
         return [("runner.run() let an exception escape: %s" % obs["crashed"], "run-crashed")]
     idx = scen_index(prog)
+    from props.c02 import scenarios_of, eval_expr
+    expr = prog["cfg"].get("expr")
+    expr = expr[2] if (expr is not None and expr[0] == "raw") else expr
+    selected_steps = set()
+    for _name, steps, tags in scenarios_of(prog):
+        if eval_expr(expr, tags):
+            selected_steps.update(s["id"] for s in steps)
     wrong = []
     for b in bad_events(obs):
         if b[0] == "pending?":
             e = b[1]
             if "wip" not in idx.get(e[3], set()):      # tags from the abstract program, not from behave
                 wrong.append(e)
+        elif b[0] == "undef":
+            # an undefined step only counts when a *selected* scenario contains it
+            if b[1] in selected_steps:
+                wrong.append(b)
         else:
             wrong.append(b)
     if obs["failed"] and not wrong:
